@@ -32,7 +32,8 @@ Qed.
 (* ------------------------------------------------------------------ effect of a step *)
 Inductive wchange (ws : list (N * writer)) : list (N * writer) -> Prop :=
 | wc_same : wchange ws ws
-| wc_upd w g : (forall wr, w_seq wr <= w_seq (g wr) /\ w_mode (g wr) = w_mode wr) -> wchange ws (aupdate w g ws)
+| wc_upd w g : (forall wr, alookup w ws = Some wr -> w_seq wr <= w_seq (g wr) /\ w_mode (g wr) = w_mode wr) ->
+               wchange ws (aupdate w g ws)
 | wc_new w wr : alookup w ws = None -> wchange ws (ws ++ [(w, wr)]).
 
 Inductive quiet_strs (ss : list (N * streamer)) : list (N * streamer) -> Prop :=
@@ -42,18 +43,26 @@ Inductive quiet_strs (ss : list (N * streamer)) : list (N * streamer) -> Prop :=
 
 Inductive effect (st st' : state) : Prop :=
 | eff_quiet :
+    st_unowned st' = st_unowned st -> st_deadinlet st' = st_deadinlet st -> st_chans st' = st_chans st ->
+    st_cap st' = st_cap st ->
     st_hist st' = st_hist st -> st_fifo st' = st_fifo st ->
     wchange (st_writers st) (st_writers st') -> quiet_strs (st_strs st) (st_strs st') -> effect st st'
 | eff_push w wr ks :
+    st_unowned st' = st_unowned st -> st_deadinlet st' = st_deadinlet st -> st_chans st' = st_chans st ->
+    st_cap st' = st_cap st ->
     open_writer_of st w = Some wr -> streams (w_mode wr) = true ->
+    (length (st_fifo st) <= st_cap st)%nat ->
     let f := Frame w (w_seq wr + 1) (relayed_keys st w wr ks) ks (unauth_keys st w wr ks) in
     st_hist st' = st_hist st ++ [f] -> st_fifo st' = st_fifo st ++ [f] ->
-    st_writers st' = aupdate w (fun wr => Writer (w_open wr) (w_mode wr) (w_chans wr) (w_pos wr) (w_seq wr + 1))
+    st_writers st' = aupdate w (fun x => Writer (w_open x) (w_mode x) (w_chans x) (w_pos x) (w_seq wr + 1))
                              (st_writers st) ->
     st_strs st' = st_strs st -> effect st st'
 | eff_pop f :
+    st_unowned st' = st_unowned st -> st_deadinlet st' = st_deadinlet st -> st_chans st' = st_chans st ->
+    st_cap st' = st_cap st ->
     st_hist st' = st_hist st -> st_fifo st = f :: st_fifo st' -> st_writers st' = st_writers st ->
     (In (st_strs st') (deliver_all f (st_strs st)) \/ In (st_strs st') (deliver_prefix f (st_strs st))) ->
+    (In st' (deliver_succs st) \/ (st_closed st = false /\ st_closed st' = true)) ->
     effect st st'.
 
 Lemma open_writer_of_seq st w wr :
@@ -70,17 +79,18 @@ Proof.
   - destruct (alookup w (st_writers st)) eqn:El; [intros [<-|[]]; apply eff_quiet; auto; constructor|].
     destruct (open_writer_ok st w chans auths); intros [<-|[]]; apply eff_quiet; simpl; auto; try constructor.
     exact El.
-  - intros [<-|[]]. apply eff_quiet; simpl; auto; try constructor. intros wr. simpl. split; [lia|reflexivity].
-  - intros [<-|[]]. apply eff_quiet; simpl; auto; try constructor. intros wr. simpl. split; [lia|reflexivity].
+  - intros [<-|[]]. apply eff_quiet; simpl; auto; try constructor. intros wr _. simpl. split; [lia|reflexivity].
+  - intros [<-|[]]. apply eff_quiet; simpl; auto; try constructor. intros wr _. simpl. split; [lia|reflexivity].
   - destruct (open_writer_of st w) as [wr|] eqn:Ew; [|intros [<-|[]]; apply eff_quiet; auto; constructor].
     destruct (bad_hits st wr keys bad || negb (valid_frame st wr keys)).
-    { intros [<-|[]]. apply eff_quiet; simpl; auto; try constructor. intros x. simpl. split; [lia|reflexivity]. }
+    { intros [<-|[]]. apply eff_quiet; simpl; auto; try constructor. intros x _. simpl. split; [lia|reflexivity]. }
     destruct (streams (w_mode wr) && negb (st_closed st && negb (st_deadinlet st))) eqn:Es.
-    + match goal with |- In _ (if ?c then _ else _) -> _ => destruct c end; [|intros []].
+    + match goal with |- In _ (if ?c then _ else _) -> _ => destruct c eqn:Eg end; [|intros []].
       intros [<-|[]]. apply andb_true_iff in Es. destruct Es as [Es _].
       eapply (eff_push st _ w wr keys); simpl; auto.
+      destruct (st_closed st); [apply Nat.ltb_lt in Eg; lia|apply Nat.leb_le in Eg; exact Eg].
     + intros [<-|[]]. apply eff_quiet; simpl; auto; try constructor.
-      intros x. simpl. split; [lia|reflexivity].
+      intros x Hx. simpl. rewrite (open_writer_of_seq _ _ _ Ew) in Hx. injection Hx as <-. split; [lia|reflexivity].
   - destruct (st_closed st); [intros [<-|[]]; apply eff_quiet; auto; constructor|].
     destruct (alookup s (st_strs st)); intros [<-|[]]; apply eff_quiet; simpl; auto; constructor.
   - destruct (st_closed st); intros [<-|[]]; apply eff_quiet; simpl; auto; try constructor.
@@ -93,7 +103,7 @@ Proof.
     intros x. destruct (s_closing x); reflexivity.
   - destruct (st_closed st); [intros [<-|[]]; apply eff_quiet; auto; constructor|].
     destruct (sync_ready st); intros H; [destruct H as [<-|[]]; apply eff_quiet; auto; constructor|destruct H].
-  - destruct (st_closed st); [intros [<-|[]]; apply eff_quiet; auto; constructor|].
+  - destruct (st_closed st) eqn:Ec; [intros [<-|[]]; apply eff_quiet; auto; constructor|].
     intros H. apply in_app_or in H. destruct H as [H|H].
     + destruct (length (st_fifo st) <=? st_cap st)%nat; [|destruct H].
       destruct H as [<-|[]]. apply eff_quiet; simpl; auto; constructor.
@@ -104,7 +114,7 @@ Qed.
 Lemma hsucc_effect st st' : In st' (hsucc st) -> effect st st'.
 Proof.
   unfold hsucc. intros H. apply in_app_or in H. destruct H as [H|H]; [|apply in_app_or in H; destruct H as [H|H]].
-  - unfold deliver_succs in H. destruct (st_closed st); [destruct H|].
+  - pose proof H as Hd. unfold deliver_succs in H. destruct (st_closed st); [destruct H|].
     destruct (st_fifo st) as [|f q] eqn:Ef; [destruct H|].
     apply in_map_iff in H. destruct H as (ss & <- & Hss). apply (eff_pop st _ f); simpl; auto.
   - unfold apply_succs in H. apply in_flat_map in H. destruct H as ([s x0] & _ & H). simpl in H.
@@ -138,7 +148,8 @@ Record Inv (st : state) : Prop := {
                        streams (w_mode wr) = true;
   inv_nodup : List.NoDup (map tag (st_hist st));
   inv_sorted : forall w, StronglySorted N.lt (map f_seq (filter (fun f => f_w f =? w) (st_hist st)));
-  inv_frames : forall f, In f (st_hist st) -> frame_ok f
+  inv_frames : forall f, In f (st_hist st) -> frame_ok f;
+  inv_cap : (length (st_fifo st) <= S (st_cap st))%nat
 }.
 
 Lemma Inv_init u d chans cap : Inv (init_gen u d chans cap).
@@ -149,6 +160,7 @@ Proof.
   - constructor.
   - intros w. constructor.
   - intros f [].
+  - lia.
 Qed.
 
 Lemma wchange_lookup ws ws' k wr :
@@ -157,8 +169,8 @@ Lemma wchange_lookup ws ws' k wr :
 Proof.
   destruct 1; intros Hl.
   - exists wr. split; [exact Hl|]. split; [lia|reflexivity].
-  - rewrite alookup_aupdate, Hl. simpl. destruct (k =? w).
-    + exists (g wr). split; [reflexivity|]. apply H.
+  - rewrite alookup_aupdate, Hl. simpl. destruct (k =? w) eqn:E.
+    + apply N.eqb_eq in E. subst k. exists (g wr). split; [reflexivity|]. apply H. exact Hl.
     + exists wr. split; [reflexivity|]. split; [lia|reflexivity].
   - rewrite (alookup_app_new k w wr0 ws H), Hl. exists wr. split; [reflexivity|]. split; [lia|reflexivity].
 Qed.
@@ -198,7 +210,7 @@ Lemma deliver_prefix_in f ss ss' s x' :
   In ss' (deliver_prefix f ss) -> In (s, x') ss' ->
   exists x, In (s, x) ss /\ (x' = x \/ x' = hand f x).
 Proof.
-  revert ss'. induction ss as [|[k y] r IH]; simpl; intros ss' H Hin; [destruct H|].
+  revert ss'. induction ss as [|[k y] r IH]; simpl; intros ss' H Hin; [destruct H as [<-|[]]; destruct Hin|].
   destruct H as [<-|H].
   { exists x'. split; [exact Hin|left; reflexivity]. }
   assert (Hgen : forall y' t, In t (deliver_prefix f r) -> (y' = y \/ y' = hand f y) ->
@@ -219,11 +231,11 @@ Lemma aupdate_in {A} s (g : A -> A) l k x' :
 Proof.
   induction l as [|[k' y] r IH]; simpl; [tauto|].
   destruct (s =? k').
-  - intros [[= -> ->]|H].
+  - intros [[= -> <-]|H].
     + exists y. split; [left; reflexivity|right; reflexivity].
     + exists x'. split; [right; exact H|left; reflexivity].
-  - intros [[= -> ->]|H].
-    + exists x'. split; [left; reflexivity|left; reflexivity].
+  - intros [[= -> <-]|H].
+    + exists y. split; [left; reflexivity|left; reflexivity].
     + destruct (IH H) as (x & Hx & Hxx). exists x. split; [right; exact Hx|exact Hxx].
 Qed.
 
@@ -260,7 +272,7 @@ Qed.
 
 Lemma Inv_step st st' : effect st st' -> Inv st -> Inv st'.
 Proof.
-  intros He [Hdl Hw Hnd Hso Hfr]. destruct He as [Hh Hf Hwc Hq|w wr ks Ho Hs f Hh Hf Hws Hss|f Hh Hf Hws Hd].
+  intros He [Hdl Hw Hnd Hso Hfr Hc]. destruct He as [_ _ _ Hcap Hh Hf Hwc Hq|w wr ks _ _ _ Hcap Ho Hs Hguard f Hh Hf Hws Hss|f _ _ _ Hcap Hh Hf Hws Hd Hcause].
   - (* quiet *)
     split.
     + destruct Hdl as (dl & Hd1 & Hd2). exists dl. rewrite Hh, Hf. split; [exact Hd1|].
@@ -273,6 +285,7 @@ Proof.
     + rewrite Hh. exact Hnd.
     + rewrite Hh. exact Hso.
     + rewrite Hh. exact Hfr.
+    + rewrite Hf, Hcap. exact Hc.
   - (* push *)
     pose proof (open_writer_of_seq _ _ _ Ho) as Hl.
     assert (Hold : forall g, In g (st_hist st) -> f_w g = w -> f_seq g <= w_seq wr).
@@ -284,7 +297,8 @@ Proof.
     + rewrite Hh, Hws. intros g Hg. apply in_app_or in Hg. destruct Hg as [Hg|[<-|[]]].
       * destruct (Hw g Hg) as (wr0 & Hl0 & Hle & Hm). rewrite alookup_aupdate, Hl0. simpl.
         destruct (f_w g =? w) eqn:E.
-        -- eexists. split; [reflexivity|]. simpl. split; [lia|exact Hm].
+        -- apply N.eqb_eq in E. pose proof (Hold g Hg E).
+           eexists. split; [reflexivity|]. simpl. split; [lia|exact Hm].
         -- exists wr0. auto.
       * simpl. rewrite alookup_aupdate, Hl, N.eqb_refl. simpl. eexists. split; [reflexivity|].
         simpl. split; [lia|exact Hs].
@@ -302,6 +316,7 @@ Proof.
       * rewrite app_nil_r. apply Hso.
     + rewrite Hh. intros g Hg. apply in_app_or in Hg. destruct Hg as [Hg|[<-|[]]]; [auto|].
       apply relayed_keys_ok.
+    + rewrite Hf, Hcap, app_length. simpl. lia.
   - (* pop *)
     split.
     + destruct Hdl as (dl & Hd1 & Hd2). exists (dl ++ [f]). rewrite Hh, Hd1, Hf, <- app_assoc.
@@ -325,6 +340,7 @@ Proof.
     + rewrite Hh. exact Hnd.
     + rewrite Hh. exact Hso.
     + rewrite Hh. exact Hfr.
+    + rewrite Hf in Hc. simpl in Hc. rewrite Hcap. lia.
 Qed.
 
 Lemma Inv_run st ls st' : run st ls st' -> Inv st -> Inv st'.
@@ -332,3 +348,13 @@ Proof. induction 1; auto. intros Hi. apply IHrun. eapply Inv_step; [eapply lstep
 
 Lemma Inv_reachable_gen u d chans cap ls st : run (init_gen u d chans cap) ls st -> Inv st.
 Proof. intros H. eapply Inv_run; [exact H|apply Inv_init]. Qed.
+
+Lemma run_flags st ls st' :
+  run st ls st' ->
+  st_unowned st' = st_unowned st /\ st_deadinlet st' = st_deadinlet st /\ st_chans st' = st_chans st /\
+  st_cap st' = st_cap st.
+Proof.
+  induction 1; [auto|]. apply lstep_effect in H.
+  destruct IHrun as (A & B & C & D). rewrite A, B, C, D.
+  destruct H; auto.
+Qed.
